@@ -42,3 +42,54 @@ class Echo(object):
     @attr.setter
     def attr(self, v):
         self.seen.append((("attr", v), {}))
+
+
+class Accum(object):
+    """stateful target for the batch check; only some members are exposed"""
+    def __init__(self):
+        self.total = 0
+        self.items = []
+        self.log = []
+
+    @server.expose
+    def add(self, x=1):
+        self.log.append(("add", x))
+        self.total += x
+        return self.total
+
+    @server.expose
+    def append(self, item, twice=False):
+        self.log.append(("append", item, twice))
+        self.items.append(item)
+        if twice:
+            self.items.append(item)
+        return len(self.items)
+
+    @server.expose
+    def get(self):
+        self.log.append(("get",))
+        return [self.total, list(self.items)]
+
+    @server.expose
+    def fail(self, kind="value"):
+        self.log.append(("fail", kind))
+        self.total += 100      # a side effect that must be kept (the call did run)
+        if kind == "value":
+            raise ValueError("boom", 42)
+        if kind == "key":
+            raise KeyError("nokey")
+        raise ZeroDivisionError("division by zero")
+
+    @server.expose
+    def nothing(self):
+        self.log.append(("nothing",))
+
+    def unexposed(self):
+        self.log.append(("unexposed",))
+        self.total += 1000
+        return "leak"
+
+    def _private(self):
+        self.log.append(("_private",))
+        self.total += 1000
+        return "leak"
